@@ -12,6 +12,7 @@ import (
 	"crypto/sha256"
 	"encoding/binary"
 	"encoding/hex"
+	"encoding/json"
 	"fmt"
 	"math/rand/v2"
 	"os"
@@ -50,6 +51,17 @@ type hopSpec struct {
 	Eg uint16  `json:"eg"`
 }
 
+// expList is a list of hop-field ExpTime values (JSON: numbers, not base64).
+type expList []uint8
+
+func (e expList) MarshalJSON() ([]byte, error) {
+	out := make([]int, len(e))
+	for i, x := range e {
+		out[i] = int(x)
+	}
+	return json.Marshal(out)
+}
+
 type peerSpec struct {
 	At   int     `json:"at"`
 	Peer addr.IA `json:"peer"`
@@ -64,7 +76,7 @@ type segSpec struct {
 	SegID  uint16     `json:"seg_id"`
 	// SignNS is the signing time of the last AS entry (ns).
 	SignNS int64   `json:"sign_ns"`
-	Exp    []uint8 `json:"exp"`
+	Exp    expList `json:"exp"`
 	Beacon bool    `json:"beacon,omitempty"`
 	Next   addr.IA `json:"next,omitempty"`
 }
